@@ -42,7 +42,7 @@ def gen_cases(ck):
     unconv2 = {'info': {'name': 'T', 'piece length': L, 'length': 5, 'pieces': bytes(20)}, 5: 'intkey'}
     unconv3 = {'info': {'name': 'T', 'piece length': L, 'length': 5, 'pieces': bytes(20), 'x': object()}}
     for md in (unconv, unconv2, unconv3):
-        for target in ('absent', 'file', 'dir'):
+        for target in ('absent', 'file', 'dir', 'dangling-symlink', 'socket', 'symlink-to-file'):
             for ow in (True, False):
                 for v in (True, False):
                     out.append((md, 'corpus unconvertible', target, ow, v))
@@ -60,7 +60,7 @@ def gen_cases(ck):
                     break
         if not isinstance(md, dict):
             continue
-        target = ck.rng.choice(['absent', 'file', 'file', 'dir', 'noperm', 'noperm-absent'])
+        target = ck.rng.choice(['absent', 'file', 'file', 'dir', 'noperm', 'noperm-absent', 'dangling-symlink', 'socket', 'symlink-to-file', 'symlink-to-dir'])
         out.append((md, desc, target, ck.rng.random() < 0.5, ck.rng.random() < 0.8))
     return out
 
@@ -68,9 +68,25 @@ def gen_cases(ck):
 PRIOR = b'PRIOR CONTENT 0123456789'
 
 
+def node_state(p):
+    """what is at path p (not following a final symlink)"""
+    import stat
+    try:
+        st = os.lstat(p)
+    except OSError:
+        return ('absent',)
+    if stat.S_ISLNK(st.st_mode):
+        return ('symlink', os.readlink(p))
+    if stat.S_ISDIR(st.st_mode):
+        return ('dir',)
+    if stat.S_ISSOCK(st.st_mode):
+        return ('socket',)
+    return ('file', open(p, 'rb').read())
+
+
 def run_write(root, md, target, overwrite, validate):
     p = os.path.join(root, 't.torrent')
-    parent_ro = None
+    sock = None
     if target == 'file':
         open(p, 'wb').write(PRIOR)
     elif target == 'dir':
@@ -80,23 +96,36 @@ def run_write(root, md, target, overwrite, validate):
         blocker = os.path.join(root, 'blocker')
         open(blocker, 'wb').write(b'x')
         p = os.path.join(blocker, 't.torrent')
+    elif target == 'dangling-symlink':
+        os.symlink(os.path.join(root, 'no-such-dir', 'x.torrent'), p)      # exists() is False, open() fails with ENOENT
+    elif target == 'symlink-to-dir':
+        os.mkdir(os.path.join(root, 'adir'))
+        os.symlink(os.path.join(root, 'adir'), p)
+    elif target == 'symlink-to-file':
+        open(os.path.join(root, 'real.torrent'), 'wb').write(PRIOR)
+        os.symlink(os.path.join(root, 'real.torrent'), p)
+    elif target == 'socket':
+        import socket
+        sock = socket.socket(socket.AF_UNIX)
+        sock.bind(p)                                                          # open() fails with ENXIO
+    before = node_state(p)
     t = ml.make_torrent(md)
     try:
         t.write(p, validate=validate, overwrite=overwrite)
         res = ('ok', None)
     except Exception as e:  # noqa
         res = ('err', sl.canon_exc_site(e))
-    if os.path.isdir(p):
-        after = ('dir',)
-    elif os.path.exists(p):
-        after = ('file', open(p, 'rb').read())
-    else:
-        after = ('absent',)
+    after = node_state(p)
+    if target == 'symlink-to-file' and after == before:
+        after = ('symlink-to-file', open(os.path.join(root, 'real.torrent'), 'rb').read())
+        before = ('symlink-to-file', PRIOR)
+    if sock is not None:
+        sock.close()
     try:
         dumped = ('ok', ml.make_torrent(md).dump(validate=validate))
     except Exception as e:  # noqa
         dumped = ('err', sl.canon_exc_site(e))
-    return res, after, dumped
+    return res, after, dumped, before
 
 
 def run_stream(md, kind, validate):
@@ -119,24 +148,25 @@ def run_stream(md, kind, validate):
     return res, content
 
 
-def oracle_write(target, overwrite, res, after, dumped):
+def oracle_write(target, overwrite, res, after, dumped, before):
     """yields (key, what)"""
-    before = {'absent': ('absent',), 'file': ('file', PRIOR), 'dir': ('dir',), 'noperm': ('absent',), 'noperm-absent': ('absent',)}[target]
+    existing = target in ('file', 'symlink-to-file', 'dir', 'symlink-to-dir', 'socket')
     if res[0] == 'ok':
-        if dumped[0] != 'ok' or after != ('file', dumped[1]):
+        got = after[1] if after[0] in ('file', 'symlink-to-file') else None
+        if dumped[0] != 'ok' or got != dumped[1]:
             yield 'success-but-not-dumped-bytes', 'write() succeeded but the file does not hold exactly dump()'
-        if target == 'file' and not overwrite:
+        if existing and not overwrite:
             yield 'overwrote-without-flag', 'write() replaced an existing file although overwrite=False'
     else:
         if after != before:
-            yield 'failed-write-left-trace', f'write() failed ({res[1]}) but the target changed from {before[0]} to {after[:1]}'
-        if target == 'file' and not overwrite and res[1] != ('WriteError',):
+            yield 'failed-write-left-trace', f'write() failed ({res[1]}) but the target changed from {before[:1]} to {after[:1]}'
+        if existing and not overwrite and res[1] != ('WriteError',):
             yield 'refusal-not-WriteError', f'refused overwrite raised {res[1]}'
 
 
 def run(ck, model_ok):
     ck.rule = ('metainfo = valid or mutated (70%) or unconvertible-but-valid (values None/object/non-str keys); targets: absent / existing file / directory / '
-               'unopenable path x overwrite flag x validate flag; streams: BytesIO with prior content, non-seekable writer with prior content, writers whose '
+               'unopenable path / dangling symlink / symlink to a file or a directory / unix socket x overwrite flag x validate flag; streams: BytesIO with prior content, non-seekable writer with prior content, writers whose '
                'write() fails; oracle: a failed write leaves the target byte-identical (or absent), refusal raises WriteError, success leaves exactly dump(); '
                'model compared where representable; non-trivial = distinct (metainfo, target, flags) whose export fails')
     m = Model()
@@ -146,11 +176,11 @@ def run(ck, model_ok):
         for ci, (md, desc, target, ow, v) in enumerate(cases):
             d = os.path.join(root, str(ci))
             os.mkdir(d)
-            res, after, dumped = run_write(d, md, target, ow, v)
+            res, after, dumped, before = run_write(d, md, target, ow, v)
             ck.case((ml.canon(md), target, ow, v), nontrivial=(res[0] == 'err'))
             ck.count('write:' + target + (':ok' if res[0] == 'ok' else ':' + res[1][0]))
             case = {'md': ml.safe_repr(md), 'mutations': desc, 'target': target, 'overwrite': ow, 'validate': v}
-            for key, what in oracle_write(target, ow, res, after, dumped):
+            for key, what in oracle_write(target, ow, res, after, dumped, before):
                 ck.fail('oracle', key, case, 'no trace / exact dump', repr((res, after))[:300], what)
             sres = {}
             for kind in ('bytesio', 'nonseekable', 'nonseekable-fail', 'seekable-fail'):
@@ -168,8 +198,9 @@ def run(ck, model_ok):
                                 'write_stream modified the stream although no complete content was produced')
             if model_ok and ml.modelable(md):
                 w = ml.to_wire(md)
-                tw = {'absent': 'absent', 'file': ['file', PRIOR], 'dir': 'dir', 'noperm': 'noperm-absent', 'noperm-absent': 'noperm-absent'}[target]
-                i1 = m.add(['meta.write', 'none', ow, v, w, tw])
+                tw = {'absent': 'absent', 'file': ['file', PRIOR], 'dir': 'dir', 'noperm': 'noperm-absent', 'noperm-absent': 'noperm-absent'}.get(target)
+                # symlinks and sockets at the target are outside the file-system model: oracle only
+                i1 = m.add(['meta.write', 'none', ow, v, w, tw]) if tw is not None else None
                 i2 = m.add(['meta.write_stream', 'none', v, w, True, PRIOR, False])
                 i3 = m.add(['meta.write_stream', 'none', v, w, False, PRIOR, False])
                 i4 = m.add(['meta.write_stream', 'none', v, w, False, PRIOR, True])
@@ -180,13 +211,14 @@ def run(ck, model_ok):
             out = m.run()
             for case, res, after, sres, ids in pend:
                 ck.ties += 1
-                mw = out[ids[0]]
-                mres = sl.model_res(mw[0], lambda v: None)
-                mt = mw[1]
-                mafter = ('absent',) if mt in ('absent', 'noperm-absent') else ('dir',) if mt == 'dir' else ('file', atom_bytes(mt[1]))
-                unm = mres == ('err', ('IOther',))
-                if not unm and (mres != (res[0], res[1][:1] if res[0] == 'err' else None) or mafter != after):
-                    ck.fail('tie', 'write', case, repr((mres, mafter))[:300], repr((res, after))[:300], 'model and implementation disagree')
+                if ids[0] is not None:
+                    mw = out[ids[0]]
+                    mres = sl.model_res(mw[0], lambda v: None)
+                    mt = mw[1]
+                    mafter = ('absent',) if mt in ('absent', 'noperm-absent') else ('dir',) if mt == 'dir' else ('file', atom_bytes(mt[1]))
+                    unm = mres == ('err', ('IOther',))
+                    if not unm and (mres != (res[0], res[1][:1] if res[0] == 'err' else None) or mafter != after):
+                        ck.fail('tie', 'write', case, repr((mres, mafter))[:300], repr((res, after))[:300], 'model and implementation disagree')
                 for kind, idx in (('bytesio', ids[1]), ('nonseekable', ids[2]), ('nonseekable-fail', ids[3])):
                     ms = out[idx]
                     msres = sl.model_res(ms[0], lambda v: None)
@@ -203,8 +235,8 @@ def replay(rp):
     c = rp['case']
     md = ml.eval_repr(c['md'])
     with Scratch() as root:
-        res, after, dumped = run_write(root, md, c['target'], c['overwrite'], c['validate'])
-        v = list(oracle_write(c['target'], c['overwrite'], res, after, dumped))
+        res, after, dumped, before = run_write(root, md, c['target'], c['overwrite'], c['validate'])
+        v = list(oracle_write(c['target'], c['overwrite'], res, after, dumped, before))
         if 'stream' in c:
             r, content = run_stream(md, c['stream'], c['validate'])
             if r[0] == 'err' and dumped[0] != 'ok' and content != PRIOR:
